@@ -83,16 +83,36 @@ class FormTranslator(object):
             env[a] = ("param", i)
         consts = self.class_consts(cls)
         body = [s for s in fn.body if not (isinstance(s, ast.Expr) and isinstance(s.value, ast.Constant) and isinstance(s.value.value, str))]
+        guards = []
         for st in body:
             if isinstance(st, ast.Assign) and len(st.targets) == 1 and isinstance(st.targets[0], ast.Name):
                 env[st.targets[0].id] = self.expr(st.value, env, consts, depth)
             elif isinstance(st, ast.Return):
-                return args[2:], self.expr(st.value, env, consts, depth)
+                term = self.expr(st.value, env, consts, depth)
+                if depth == 0:
+                    # `if <param> == <literal> [or ...]: return <literal>` before the formula: the formula term is what is translated; for each guard the
+                    # term with the parameter fixed to the literal and the literal returned are emitted side by side (theorem: they agree wherever the formula
+                    # is defined, so the guard only extends it to points where the floating-point expression would raise, e.g. 0.0**-1)
+                    self.last_guards = [(subst_param(term, pi, lit), val) for (pi, lit, val) in guards]
+                return args[2:], term
+            elif isinstance(st, ast.If) and not st.orelse and len(st.body) == 1 and isinstance(st.body[0], ast.Return) \
+                    and isinstance(st.body[0].value, ast.Constant) and isinstance(st.body[0].value.value, (int, float)):
+                val = lit_of_text(ast.get_source_segment(self.src, st.body[0].value))
+                tests = st.test.values if isinstance(st.test, ast.BoolOp) and isinstance(st.test.op, ast.Or) else [st.test]
+                for t in tests:
+                    ok = isinstance(t, ast.Compare) and len(t.ops) == 1 and isinstance(t.ops[0], ast.Eq) and isinstance(t.left, ast.Name) and t.left.id in args[2:] \
+                        and isinstance(t.comparators[0], ast.Constant) and isinstance(t.comparators[0].value, (int, float))
+                    if not ok:
+                        raise Untranslatable("guard %s" % (ast.get_source_segment(self.src, st.test) or "")[:40])
+                    guards.append((args[2:].index(t.left.id), lit_of_text(ast.get_source_segment(self.src, t.comparators[0])), val))
             else:
                 raise Untranslatable("statement %s" % type(st).__name__)
         raise Untranslatable("no return")
 
     def expr(self, e, env, consts, depth):
+        g = zero_factor_guard(e)
+        if g is not None:
+            return self.expr(g, env, consts, depth)
         if isinstance(e, ast.Constant):
             if isinstance(e.value, bool) or not isinstance(e.value, (int, float)):
                 raise Untranslatable("constant %r" % (e.value,))
@@ -156,6 +176,31 @@ class FormTranslator(object):
         if isinstance(e, ast.Constant) and isinstance(e.value, float) and e.value == int(e.value) and abs(e.value) < 1000:
             return int(e.value)
         return None
+
+
+def zero_factor_guard(e):
+    """`(X * Y) if X != 0 else 0.0`  ->  (name of X, the product node) or None.  Over the reals (total functions) the product is 0 when X is, so the conditional
+    denotes the product; in floating point it avoids evaluating Y (e.g. log of a negative number) when its factor vanishes."""
+    if not isinstance(e, ast.IfExp):
+        return None
+    t, body, other = e.test, e.body, e.orelse
+    ok = isinstance(t, ast.Compare) and len(t.ops) == 1 and isinstance(t.ops[0], ast.NotEq) and isinstance(t.left, ast.Name) \
+        and isinstance(t.comparators[0], ast.Constant) and t.comparators[0].value == 0 \
+        and isinstance(other, ast.Constant) and other.value == 0 \
+        and isinstance(body, ast.BinOp) and isinstance(body.op, ast.Mult) \
+        and ((isinstance(body.left, ast.Name) and body.left.id == t.left.id) or (isinstance(body.right, ast.Name) and body.right.id == t.left.id))
+    return body if ok else None
+
+
+def subst_param(t, pi, lit):
+    k = t[0]
+    if k == "param":
+        return lit if t[1] == pi else t
+    if k in ("var", "lit", "pi", "bad", "sym"):
+        return t
+    if k == "npow":
+        return ("npow", subst_param(t[1], pi, lit), t[2])
+    return (k,) + tuple(subst_param(x, pi, lit) for x in t[1:])
 
 
 def subst(t, var, params):
@@ -226,14 +271,20 @@ def gen_forms(repo, outdir, summary):
             continue
         entry = dict(cls=clsname, methods={})
         for m, lname in (("__call__", "call"), ("deriv", "deriv"), ("deriv2", "deriv2")):
+            guards = []
             try:
+                ft.last_guards = []
                 params, term = ft.translate_method(clsname, m)
+                guards = ft.last_guards
                 entry["params"] = params
                 entry["methods"][lname] = dict(ok=True, nodes=size(term))
             except Untranslatable as e:
                 term = ("bad",)
                 entry["methods"][lname] = dict(ok=False, why=str(e))
             out.append("def %s_%s : E := %s" % (inst, lname, lean(term)))
+            if guards:
+                out.append("/-- guards `if <parameter> == <literal>: return <value>` placed before the formula of `%s.%s`: (the formula with the parameter fixed, the value returned) -/" % (inst, m))
+                out.append("def %s_%s_guards : List (E × E) := [%s]" % (inst, lname, ", ".join("(%s, %s)" % (lean(a), lean(b)) for a, b in guards)))
         params = entry.get("params", [])
         out.append("def %s_params : List String := [%s]" % (inst, ", ".join('"%s"' % p for p in params)))
         out.append("")
@@ -269,6 +320,9 @@ class ClosureTranslator(object):
         raise Untranslatable("no return")
 
     def expr(self, e, env, rname):
+        g = zero_factor_guard(e)
+        if g is not None:
+            return self.expr(g, env, rname)
         if isinstance(e, ast.Constant) and isinstance(e.value, (int, float)) and not isinstance(e.value, bool):
             return lit_of_text(ast.get_source_segment(self.src, e))
         if isinstance(e, ast.Name):
